@@ -146,7 +146,14 @@ impl Cmd {
         let h = crate::util::hash128(&plain).0;
         let flags = if h % 4 == 0 { (h >> 8) as u8 } else { 0 };
         let iterations = if h % 16 == 1 { (h >> 16) as u32 } else { 1 };
-        Cmd::new(Kind::Execute, wire::com_execute(id, flags, iterations, params, send_types))
+        let mut payload = wire::com_execute(id, flags, iterations, params, send_types);
+        // "new-params-bound" is a flag: clear or not. Clients send 1; any other non-zero byte says the
+        // same (types follow), and one rebinding execute in six says it that way.
+        if send_types && !params.is_empty() && (h >> 24) % 6 == 0 {
+            let at = 10 + (params.len() + 7) / 8;
+            payload[at] = 2 + ((h >> 32) % 254) as u8;
+        }
+        Cmd::new(Kind::Execute, payload)
     }
     pub fn execute_plain(id: u32, params: &[wire::Param], send_types: bool) -> Cmd {
         Cmd::new(Kind::Execute, wire::com_execute(id, 0, 1, params, send_types))
@@ -314,6 +321,7 @@ fn run_case_tls(case: &Case) -> Option<Obs> {
         record_per_command: h & 128 == 0,
         write_fault: None,
         buffer_writes: h & 256 == 0,
+        eager_close: h & 1536 == 512,
     };
     let o = crate::props::c18::run_tls(m, &c).ok()?;
     if o.world.client_error.is_some() || o.world.deadlock || o.world.wedged {
